@@ -170,6 +170,7 @@ pub struct RunOutput {
     pub violation: Option<Violation>,
     pub probes: Counters,
     pub faults_fired: Counters,
+    pub foreign: Counters,
     pub states: Vec<u64>,
     pub triples: Vec<u64>,
     pub sim_time_ns: u64,
@@ -571,6 +572,7 @@ pub fn run<B: Backend, W: World>(be: &mut B, w: &W, params: RunParams, seed: u64
         violation,
         probes: exec.probes.clone(),
         faults_fired: fired,
+        foreign: exec.foreign.clone(),
         states: exec.states.iter().copied().collect(),
         triples: exec.triples.iter().copied().collect(),
         sim_time_ns: now,
